@@ -1236,6 +1236,13 @@ def dd2sec(dd):
 def dec2hp_v(dec):
     minute, second = divmod(abs(dec) * 3600, 60)
     degree, minute = divmod(minute, 60)
+    # carry seconds that round to 60 (at 9 decimal places) and minutes of 60
+    carry = second.round(9) >= 60
+    second[carry] = 0
+    minute[carry] += 1
+    carry = minute >= 60
+    minute[carry] = 0
+    degree[carry] += 1
     hp = degree + (minute / 100) + (second / 10000)
     hp[dec <= 0] = -hp[dec <= 0]
     return hp
